@@ -28,6 +28,7 @@ CONSTANTS
   MaxPerBlock,   \* events per L1 block (2)
   MaxReorgs,
   MaxFail,       \* injected failures (calls + subscription drops)
+  MaxRestarts,   \* node restarts: a NEW client (empty buffer, new channel) on the SAME database
   ChunkSizes,    \* catch-up chunk sizes to choose from
   FinalityAfterNotices
       \* TRUE (the registered assumption on the L1 node's timing): a height is reported finalised
@@ -60,12 +61,13 @@ VARIABLES
   buffer,        \* nonFinalisedLogs: height -> event id (0 = no entry)
   stored,        \* the persisted L1 head (event id, 0 = none)
   fails,
+  restarts,
   \* ---- history, for the property only
   applied,       \* events merged into the buffer at some time
   removedSeen    \* events whose removal notice was merged
 
 nodeVars   == <<blocks, top, fin, nEv, l1of, l2of, reorgs, subUp, subPos, subErr, chan, delivered>>
-clientVars == <<pc, chunk, cFin, cTo, cFound, buffer, stored, fails>>
+clientVars == <<pc, chunk, cFin, cTo, cFound, buffer, stored, fails, restarts>>
 histVars   == <<applied, removedSeen>>
 vars == <<nodeVars, clientVars, histVars>>
 
@@ -76,14 +78,14 @@ SeqToSet(s) == {s[i] : i \in DOMAIN s}
 Canonical(e) == e \in Ev /\ e <= nEv /\ l1of[e] <= top /\ e \in SeqToSet(blocks[l1of[e]])
 CanonicalEvents == {e \in 1..nEv : Canonical(e)}
 (* Starknet block number of the next commit on the canonical chain *)
-NextL2 == IF CanonicalEvents = {} THEN 1 ELSE l2of[Max(CanonicalEvents)] + 1
+NextL2 == IF CanonicalEvents = {} THEN 0 ELSE l2of[Max(CanonicalEvents)] + 1   \* the first commit is Starknet block 0
 
 Init ==
   /\ blocks = [h \in 1..MaxBlocks |-> <<>>] /\ top = 0 /\ fin = 0 /\ nEv = 0
   /\ l1of = [e \in Ev |-> 0] /\ l2of = [e \in Ev |-> 0]
   /\ reorgs = 0 /\ subUp = FALSE /\ subPos = 0 /\ subErr = FALSE /\ chan = <<>> /\ delivered = {}
   /\ pc = "chainid" /\ chunk \in ChunkSizes /\ cFin = 0 /\ cTo = 0 /\ cFound = FALSE
-  /\ buffer = [h \in Heights |-> 0] /\ stored = 0 /\ fails = 0
+  /\ buffer = [h \in Heights |-> 0] /\ stored = 0 /\ fails = 0 /\ restarts = 0
   /\ applied = {} /\ removedSeen = {}
 
 ----------------------------------------------------------------------------
@@ -135,7 +137,7 @@ SubFail ==
   /\ subUp /\ fails < MaxFail
   /\ subUp' = FALSE /\ subErr' = TRUE /\ fails' = fails + 1
   /\ UNCHANGED <<blocks, top, fin, nEv, l1of, l2of, reorgs, subPos, chan, delivered,
-                 pc, chunk, cFin, cTo, cFound, buffer, stored, histVars>>
+                 pc, chunk, cFin, cTo, cFound, buffer, stored, restarts, histVars>>
 
 ----------------------------------------------------------------------------
 (* client *)
@@ -161,20 +163,20 @@ Failed  == fails' = fails + 1
 ChainID(ok) ==
   /\ pc = "chainid"
   /\ IF ok THEN pc' = "latest" /\ fails' = fails ELSE CanFail /\ Failed /\ pc' = pc     \* retried
-  /\ UNCHANGED <<nodeVars, chunk, cFin, cTo, cFound, buffer, stored, histVars>>
+  /\ UNCHANGED <<nodeVars, chunk, restarts, cFin, cTo, cFound, buffer, stored, histVars>>
 
 (* a failure anywhere in the scan abandons catch-up; Run goes on to the live subscription *)
 Latest(ok) ==
   /\ pc = "latest"
   /\ IF ok THEN pc' = "fin0" /\ cTo' = top /\ fails' = fails
            ELSE CanFail /\ Failed /\ pc' = "watch" /\ cTo' = cTo
-  /\ UNCHANGED <<nodeVars, chunk, cFin, cFound, buffer, stored, histVars>>
+  /\ UNCHANGED <<nodeVars, chunk, restarts, cFin, cFound, buffer, stored, histVars>>
 
 Fin0(ok) ==
   /\ pc = "fin0"
   /\ IF ok THEN pc' = "filter" /\ cFin' = fin /\ cFound' = FALSE /\ fails' = fails
            ELSE CanFail /\ Failed /\ pc' = "watch" /\ UNCHANGED <<cFin, cFound>>
-  /\ UNCHANGED <<nodeVars, chunk, cTo, buffer, stored, histVars>>
+  /\ UNCHANGED <<nodeVars, chunk, restarts, cTo, buffer, stored, histVars>>
 
 ChunkFrom == IF cTo + 1 > chunk THEN cTo + 1 - chunk ELSE 0
 
@@ -192,14 +194,14 @@ Filter(ok) ==
      ELSE /\ CanFail /\ Failed /\ pc' = "watch"        \* the partial buffer stays
           /\ UNCHANGED <<buffer, delivered, applied, cFound, cTo>>
   /\ UNCHANGED <<blocks, top, fin, nEv, l1of, l2of, reorgs, subUp, subPos, subErr, chan,
-                 chunk, cFin, stored, removedSeen>>
+                 chunk, cFin, stored, restarts, removedSeen>>
 
 (* the finalisedHeight retry loop of setL1Head: at the end of catch-up and on every tick *)
 FinAndSet(from, to, ok) ==
   /\ pc = from
   /\ IF ok THEN SetHead(fin) /\ pc' = to /\ fails' = fails
            ELSE CanFail /\ Failed /\ pc' = pc /\ UNCHANGED <<buffer, stored>>
-  /\ UNCHANGED <<nodeVars, chunk, cFin, cTo, cFound, histVars>>
+  /\ UNCHANGED <<nodeVars, chunk, restarts, cFin, cTo, cFound, histVars>>
 
 CatchFin(ok) == FinAndSet("catchfin", "watch", ok)
 TickFin(ok)  == FinAndSet("tickfin", "loop", ok)
@@ -210,7 +212,7 @@ Watch(ok) ==
   /\ IF ok THEN /\ pc' = "loop" /\ subUp' = TRUE /\ subPos' = top /\ subErr' = FALSE /\ fails' = fails
            ELSE /\ CanFail /\ Failed /\ pc' = pc /\ UNCHANGED <<subUp, subPos, subErr>>
   /\ UNCHANGED <<blocks, top, fin, nEv, l1of, l2of, reorgs, chan, delivered,
-                 chunk, cFin, cTo, cFound, buffer, stored, histVars>>
+                 chunk, cFin, cTo, cFound, buffer, stored, restarts, histVars>>
 
 (* case stateUpdate := <-updateCh *)
 Consume ==
@@ -220,20 +222,35 @@ Consume ==
   /\ IF chan[1].removed THEN removedSeen' = removedSeen \cup {chan[1].id} /\ applied' = applied
                         ELSE applied' = applied \cup {chan[1].id} /\ removedSeen' = removedSeen
   /\ UNCHANGED <<blocks, top, fin, nEv, l1of, l2of, reorgs, subUp, subPos, subErr, delivered,
-                 pc, chunk, cFin, cTo, cFound, stored, fails>>
+                 pc, chunk, cFin, cTo, cFound, stored, fails, restarts>>
 
 (* case err := <-sub.Err() *)
 HandleSubErr ==
   /\ pc = "loop" /\ subErr
   /\ subErr' = FALSE /\ pc' = "watch"
   /\ UNCHANGED <<blocks, top, fin, nEv, l1of, l2of, reorgs, subUp, subPos, chan, delivered,
-                 chunk, cFin, cTo, cFound, buffer, stored, fails, histVars>>
+                 chunk, cFin, cTo, cFound, buffer, stored, fails, restarts, histVars>>
 
 (* case <-ticker.C *)
 TickStart ==
   /\ pc = "loop"
   /\ pc' = "tickfin"
-  /\ UNCHANGED <<nodeVars, chunk, cFin, cTo, cFound, buffer, stored, fails, histVars>>
+  /\ UNCHANGED <<nodeVars, chunk, restarts, cFin, cTo, cFound, buffer, stored, fails, histVars>>
+
+(* The node process is restarted (gracefully or not - l1.Client persists nothing but the head):
+   a new Client starts from ensureChainID with an empty buffer and a new update channel; whatever
+   the old one had buffered or not yet taken from its channel is gone, the old subscription is dead.
+   The database, and with it the recorded head, survives.  What "delivered to it" means starts
+   afresh, except that the recorded head itself stays a commit the node knows about. *)
+Restart ==
+  /\ restarts < MaxRestarts
+  /\ restarts' = restarts + 1
+  /\ pc' = "chainid" /\ cFin' = 0 /\ cTo' = 0 /\ cFound' = FALSE
+  /\ buffer' = [h \in Heights |-> 0]
+  /\ chan' = <<>> /\ subUp' = FALSE /\ subErr' = FALSE
+  /\ delivered' = (IF stored = 0 THEN {} ELSE {stored})
+  /\ applied' = (IF stored = 0 THEN {} ELSE {stored}) /\ removedSeen' = {}
+  /\ UNCHANGED <<blocks, top, fin, nEv, l1of, l2of, reorgs, subPos, chunk, stored, fails>>
 
 NodeNext == \/ \E n \in 0..MaxPerBlock : Mine(n)
             \/ \E h \in Heights : Finalise(h)
@@ -243,6 +260,7 @@ NodeNext == \/ \E n \in 0..MaxPerBlock : Mine(n)
 ClientNext == \/ \E ok \in BOOLEAN : ChainID(ok) \/ Latest(ok) \/ Fin0(ok) \/ Filter(ok)
                                       \/ CatchFin(ok) \/ TickFin(ok) \/ Watch(ok)
               \/ Consume \/ HandleSubErr \/ TickStart
+              \/ Restart
 
 Next == NodeNext \/ ClientNext
 Spec == Init /\ [][Next]_vars
@@ -253,7 +271,7 @@ Spec == Init /\ [][Next]_vars
 TypeOK ==
   /\ top \in Heights /\ fin \in Heights /\ fin <= top /\ nEv \in 0..MaxEvents
   /\ pc \in {"chainid", "latest", "fin0", "filter", "catchfin", "watch", "loop", "tickfin"}
-  /\ stored \in 0..MaxEvents /\ fails \in 0..MaxFail /\ reorgs \in 0..MaxReorgs
+  /\ stored \in 0..MaxEvents /\ fails \in 0..MaxFail /\ reorgs \in 0..MaxReorgs /\ restarts \in 0..MaxRestarts
   /\ subPos <= top /\ delivered \subseteq 1..nEv /\ applied \subseteq delivered
 
 (* the best delivered (merged), not removed event at or below height f; 0 if there is none.
@@ -279,6 +297,9 @@ SetHeadExact == [][IsSetHeadStep => stored' = Best(Live(fin))]_vars
    but a setL1Head changes it *)
 OnlySetHeadWrites == [][stored' # stored => IsSetHeadStep]_vars
 
+(* a restart is a no-op on the recorded head *)
+RestartIsNoOp == [][restarts' # restarts => stored' = stored]_vars
+
 (* never regresses to an older Starknet block (nor to an older L1 block) *)
 Monotone == [][(stored # 0 /\ stored' # stored) =>
                  /\ stored' # 0 /\ l2of[stored'] > l2of[stored] /\ l1of[stored'] >= l1of[stored]]_vars
@@ -288,7 +309,7 @@ Monotone == [][(stored # 0 /\ stored' # stored) =>
 BufferSane ==
   \A h \in Heights : buffer[h] # 0 =>
      /\ l1of[buffer[h]] = h /\ buffer[h] \in applied \ removedSeen
-     /\ stored # 0 => h >= l1of[stored]
+     /\ (stored # 0 /\ restarts = 0) => h >= l1of[stored]   \* (a restarted client may re-read older commits)
 
 (* canonical commits carry increasing Starknet block numbers (sanity of the node model) *)
 ChainSane == \A a, b \in CanonicalEvents : a < b => l2of[a] < l2of[b] /\ l1of[a] <= l1of[b]
